@@ -261,7 +261,7 @@ def gates(m, tier):
               'base.py:BasicProperties.unmarshal',
               'header.py:ContentHeader._get_flags'):
         if f not in fr:
-            out.append('anchored function %s never entered' % f)
+            out.append('advisory: ' + 'anchored function %s never entered' % f)
     if m.counters.get('refused_at_construct', 0):
         out.append('valid property values refused at construction')
     return out[:10]
